@@ -109,12 +109,12 @@ def native_replay(inst, q, workdir, inputs=None):
     cfgflags = ["-fsigned-char" if inst.cfg[0] == "s" else "-funsigned-char"]
     ndebug = [] if "d" in inst.cfg else ["-DNDEBUG"]
     inc = ["-I" + core.REPO + "/include", "-iquote", core.REPO + "/src", "-I" + VERIF + "/spec",
-           "-I" + VERIF + "/harness", "-I" + VERIF + "/stubs", "-I" + VERIF + "/golden"]
+           "-I" + VERIF + "/harness", "-I" + VERIF + "/stubs", "-I" + VERIF + "/golden", "-I" + workdir]
     alias = []
     srcs = []
     # which file-local symbols does the harness use?
     used = set(re.findall(r"__CPROVER_file_local_(\w+?)_([ch])_(\w+)", htext))
-    for tu in h.get("tus", []):
+    for tu in inst.tus:
         p = subprocess.run(["gcc", "-E", "-std=c11", "-DPOLYSEED_STATIC"] + cfgflags + ndebug + inc +
                            [os.path.join(core.REPO, "src", tu + ".c")], capture_output=True, text=True)
         if p.returncode != 0:
@@ -140,9 +140,9 @@ def native_replay(inst, q, workdir, inputs=None):
         alias.append("-D%s=%s" % (mangled, ("vfstub_" + fn) if mangled in stubbed else fn))
     # lang.c references the ten tables: the native build links the real ones even
     # when the CBMC query left them out
-    if "lang" in h.get("tus", []):
+    if "lang" in inst.tus:
         for l in ("en", "jp", "ko", "es", "fr", "it", "cs", "pt", "zh_s", "zh_t"):
-            if ("lang_" + l) not in h.get("tus", []):
+            if ("lang_" + l) not in inst.tus:
                 srcs.append(os.path.join(core.REPO, "src", "lang_%s.c" % l))
     main = os.path.join(d, "replay_main.c")
     with open(main, "w") as fo:
